@@ -173,7 +173,9 @@ func HC04_names() {
 
 // HC04_checkPerColumn: in the assembled script every jsonb column of every table has its own
 // CHECK constraint calling the validator (tables may share column names and column types).
-func HC04_checkPerColumn() { c04CheckPerColumn("C04/every-jsonb-column-of-every-table-has-its-check-constraint") }
+func HC04_checkPerColumn() {
+	c04CheckPerColumn("C04/every-jsonb-column-of-every-table-has-its-check-constraint")
+}
 
 // HC08_jsonbChecks: the same schema-level statement under C08 (jsonb columns carry a CHECK calling
 // their validator, in every table).
